@@ -32,6 +32,8 @@ pub const CTL_ACK_SIGS: u64 = 16;
 /// harness -> target: map `late_regions` now; target -> harness: done
 pub const CTL_MAP_LATE: u64 = 24;
 pub const CTL_LATE_DONE: u64 = 32;
+/// target -> harness: 1 = the thread-id counter wrapped as requested, 2 = gave up
+pub const CTL_WRAPPED: u64 = 40;
 
 pub fn slot_addr(i: usize) -> u64 {
     CTL_ADDR + SLOT_BASE + i as u64 * SLOT_SIZE
@@ -53,6 +55,16 @@ pub struct Spec {
     /// address space changes between two requests
     #[serde(default)]
     pub late_regions: Vec<Region>,
+    /// before thread number `i` is created, short-lived threads are spawned until the kernel's id
+    /// counter has wrapped around: thread i then has a SMALLER id than the threads created before
+    /// it (the task directory lists threads in creation order, not in id order)
+    #[serde(default)]
+    pub wrap_ids_before_thread: Option<usize>,
+    /// the MAIN thread spends its life as the parent of vfork-style children that sleep this many
+    /// milliseconds each: the thread-group leader is blocked uninterruptibly (state D) almost all
+    /// the time and cannot be seen stopped until the current child is gone
+    #[serde(default)]
+    pub leader_vfork_ms: Option<u32>,
 }
 
 #[derive(Serialize, Deserialize, Clone, Debug)]
@@ -133,6 +145,10 @@ pub enum ThreadKind {
     Sleeper,
     /// keeps changing the descriptor table: dup2(/dev/null, 3000 + i % 256), close the previous one
     FdChurner,
+    /// over and over: clone(CLONE_VFORK) a child that sleeps `ms` milliseconds and exits. While the
+    /// child lives this thread is blocked uninterruptibly (state D): it cannot stop, so a tracer
+    /// that attached to it waits that long for the attach stop.
+    VforkWaiter { ms: u32 },
 }
 
 #[derive(Serialize, Deserialize, Clone, Debug)]
